@@ -296,5 +296,8 @@ Gone(x) == Dead(x) \/ \A i \in 0..2 : slot[S[x].own][i] # x          \* its endp
 Hopeless(s) == \/ (~S[s].init /\ S[s].hs = 1 /\ (Gone(S[s].h) \/ (S[S[s].h].hs >= 2 /\ S[S[s].h].rs # s)))
                \/ (S[s].init /\ S[s].hs = 2 /\ Gone(S[s].rs))
 KF_StaleHello == restarts > 0 /\ \E c \in Ch : slot[c][2] # None /\ Hopeless(slot[c][2])
-Converges == \A c \in Ch : (pending[c] > 0) ~> (pending[c] = 0 \/ KF_StaleHello)
+\* the model's session budget is spent: a further InitHello cannot be answered in the MODEL (Deliver refuses it when
+\* Len(S) >= MaxS), which says nothing about the code; liveness is claimed for behaviours within the budget
+Exhausted == Len(S) >= MaxS
+Converges == \A c \in Ch : (pending[c] > 0) ~> (pending[c] = 0 \/ KF_StaleHello \/ Exhausted)
 =============================================================================
